@@ -188,6 +188,9 @@ def endings(code, status):
         ('syntax error in a later phase than all others', conf + act + '[cleanup]\nfile\n', {}, [], ('access', 'SYNTAX_ERROR')),
         ('missing included file', conf + act + '[assert]\nincluding missing-file.xly\n', {}, [], ('access', 'FILE_ACCESS_ERROR')),
         ('failing preprocessor', conf + act, {}, ['--preprocessor', 'false'], ('access', 'PRE_PROCESS_ERROR')),
+        ('preprocessor that does not exist', conf + act, {}, ['--preprocessor', 'no-such-preprocessor-c02'], ('access', 'PRE_PROCESS_ERROR')),
+        ('preprocessor that is a directory', conf + act, {}, ['--preprocessor', '/'], ('access', 'PRE_PROCESS_ERROR')),
+        ('preprocessor that is not executable', conf + act, {'not-exe.txt': 'x'}, ['--preprocessor', './not-exe.txt'], ('access', 'PRE_PROCESS_ERROR')),
         # regression of FIX-C02-1: the identifier of an error in the suite file given with --suite follows the output mode
         ('syntax error in the suite file given with --suite', conf + act, {'bad.suite': '[cases]\n[nonsense\n'},
          ['--suite', 'bad.suite'], ('access', 'SYNTAX_ERROR')),
@@ -212,6 +215,11 @@ def endings(code, status):
             ('validation error (undefined symbol in cleanup)', conf + act + '[cleanup]\nfile f.txt = @[UNDEFINED]@\n',
              {}, [], ('executed', 'VALIDATION_ERROR', False, None)),
             ('hard error in [setup]', conf + '[setup]\n$ exit 1\n' + act, {}, [], ('executed', 'HARD_ERROR', True, None)),
+            # the action to check refers to a sandbox file that does not exist after [setup]: hard error at act/validate-post-setup
+            ('hard error at act validation after setup (program missing in the sandbox)', conf + '[act]\n-rel-act missing-program-c02 arg\n', {}, [],
+             ('executed', 'HARD_ERROR', True, None)),
+            ('hard error at act validation after setup (file actor, script missing in the sandbox)',
+             conf + '[conf]\nactor = file % /bin/sh\n[act]\n-rel-tmp missing-script-c02.sh\n', {}, [], ('executed', 'HARD_ERROR', True, None)),
             ('hard error in [before-assert]', conf + act + '[before-assert]\n$ exit 1\n', {}, [], ('executed', 'HARD_ERROR', True, code)),
             ('hard error in [assert]', conf + act + '[assert]\ncontents no-such-file.txt : is-empty\n', {}, [],
              ('executed', 'HARD_ERROR', True, code)),
